@@ -1064,9 +1064,8 @@ theorem simE_step {fns P n} (hE : SimE fns P n) (hA : SimArgs fns P n) (hB : Sim
       · have := (hK args env c ca xs c1 σ h1 ha).2 t w h
         simpa [List.append_assoc] using ExecC.append_ret _ this
       · simp [pure_eq, R.ok] at h2'
-  | record fs =>
-    simp [lowerE, Option.bind_eq_some_iff] at hl
-    obtain ⟨ca, xs, c1, h1, rfl, rfl, rfl⟩ := hl
+  | record perm fs =>
+    obtain ⟨ca, xs, c1, h1, hperm, rfl, rfl, rfl⟩ := lowerE_record_inv hl
     have ⟨m1, hxs⟩ := lowerCtorArgs_mono fs c ca xs c1 h1
     have hne : ∀ x ∈ xs, x ≠ Var.t c1 := by
       intro x hx; obtain ⟨j, rfl, hj⟩ := hxs x hx; intro h; cases h; omega
@@ -1074,14 +1073,22 @@ theorem simE_step {fns P n} (hE : SimE fns P n) (hA : SimArgs fns P n) (hB : Sim
     · intro t env' w h
       simp only [evalExpr, bind_eq, bind_ok_iff] at h
       obtain ⟨t1, ⟨env1, fs'⟩, t2, hargs, h2', rfl⟩ := h
-      simp [pure_eq, R.ok] at h2'
-      obtain ⟨rfl, rfl, rfl⟩ := h2'
       obtain ⟨σ1, hx1, hmap, ha1, hf1⟩ := (hK fs env c ca xs c1 σ h1 ha).1 t1 env1 fs' hargs
-      have s1 : ExecS P σ1 (.setDisc (.t c1) (.recd [])) [] (.normal (σ1.set (.t c1) (.recd []))) := .setDisc
-      have hmap' : xs.map (σ1.set (.t c1) (.recd [])) = fs'.map Val.int := by
+      have hlen : fs'.length = xs.length := by
+        have := congrArg List.length hmap; simpa using this.symm
+      rw [hlen] at h2'
+      simp [hperm, pure_eq, R.ok] at h2'
+      obtain ⟨rfl, rfl, rfl⟩ := h2'
+      have hall : ∀ p ∈ perm, p < (List.replicate xs.length (0 : Int)).length := by
+        intro p hp
+        simp only [permOk, Bool.and_eq_true, List.all_eq_true, decide_eq_true_eq] at hperm
+        simpa using hperm.1.2 p hp
+      have s1 : ExecS P σ1 (.setDisc (.t c1) (.recd (List.replicate xs.length 0))) []
+          (.normal (σ1.set (.t c1) (.recd (List.replicate xs.length 0)))) := .setDisc
+      have hmap' : xs.map (σ1.set (.t c1) (.recd (List.replicate xs.length 0))) = fs'.map Val.int := by
         rw [← hmap]; exact List.map_congr_left (fun y hy => set_other _ _ (hne y hy))
-      obtain ⟨σ2, hx2, hv2, hk2⟩ := exec_storeFieldsR (to := .t c1) xs fs' [] _ (by simp) hne hmap'
-      refine ⟨σ2, t1, [], ?_, (EvalV.pure (by simp [evalValue, hv2])), by simp, ?_, ?_⟩
+      obtain ⟨σ2, hx2, hv2, hk2⟩ := exec_storeFieldsAt (P := P) (to := .t c1) perm xs fs' _ _ (by simp) hall hne hmap'
+      refine ⟨σ2, t1, [], ?_, (EvalV.pure (by simp [evalValue, hv2, arrange, hlen])), by simp, ?_, ?_⟩
       · have := ExecC.append hx1 (ExecC.cons s1 hx2)
         simpa [List.append_assoc] using this
       · intro x v hx
@@ -1095,7 +1102,7 @@ theorem simE_step {fns P n} (hE : SimE fns P n) (hA : SimArgs fns P n) (hB : Sim
       rcases h with h | ⟨t1, ⟨env1, fs'⟩, t2, hargs, h2', rfl⟩
       · have := (hK fs env c ca xs c1 σ h1 ha).2 t w h
         simpa [List.append_assoc] using ExecC.append_ret _ this
-      · simp [pure_eq, R.ok] at h2'
+      · by_cases hp : permOk perm fs'.length = true <;> simp [hp, pure_eq, R.ok, R.stuck] at h2'
   | field e1 i =>
     by_cases hvar : ∃ x, e1 = .var x
     · -- `x.f`: a lazy read of a path
